@@ -96,7 +96,7 @@ func boundTransposition(d *Desc, steps []Step) []Step {
 
 func genC13(t *rapid.T) C13Case {
 	acts := append(append([]string{}, stateActions...), "panic")
-	d := genWorld(t, WorldOpts{Modes: allModes, MaxMappings: 2, Actions: acts, ActionProb: 60, Subs: 1, Overlap: true})
+	d := genWorld(t, WorldOpts{Modes: allModes, MaxMappings: 2, Actions: acts, ActionProb: 60, Subs: 1, Overlap: true, ExitMax: 3, ExitOverlap: true})
 	if _, ok := panicCode(d); !ok {
 		// construction: always have a panic key
 		used := map[uint16]bool{}
@@ -136,7 +136,80 @@ func genC13(t *rapid.T) C13Case {
 			}
 		}
 	}
-	return C13Case{D: d, Steps: steps, At: at, Hold: hold, NoLogs: rapid.IntRange(0, 7).Draw(t, "nologs") > 0}
+	c := C13Case{D: d, Steps: steps, At: at, Hold: hold, NoLogs: rapid.IntRange(0, 7).Draw(t, "nologs") > 0}
+	// The worlds have exit sequences (often with the panic key in them, as the factory keyboard has): a panic pressed while
+	// other keys of the sequence are held is a panic like any other. Only a press that COMPLETES the sequence is swallowed
+	// (C14 says so), which would make the two histories incomparable: a case in which the sequence is ever complete, with or
+	// without the inserted panic, runs without exit sequence instead.
+	if pc, ok := panicCode(d); ok && len(d.Exit) >= 2 && rapid.Bool().Draw(t, "panicInExit") {
+		in := false
+		for _, e := range d.Exit {
+			in = in || e == pc
+		}
+		if !in {
+			d.Exit[rapid.IntRange(0, len(d.Exit)-1).Draw(t, "panicExitPos")] = pc
+		}
+	}
+	if len(d.Exit) > 0 {
+		pc, _ := panicCode(d)
+		completes := func(withPanic bool) bool {
+			down := map[uint16]bool{}
+			complete := false
+			test := func() {
+				all := true
+				for _, e := range d.Exit {
+					all = all && down[e]
+				}
+				complete = complete || all
+			}
+			rel := at + hold
+			if rel > len(steps) {
+				rel = len(steps)
+			}
+			for i := 0; i <= len(steps); i++ {
+				if withPanic && i == at {
+					down[pc] = true
+					test()
+				}
+				if withPanic && i == rel {
+					delete(down, pc)
+				}
+				if i < len(steps) && steps[i].T == "key" {
+					code := steps[i].Code &^ (twinBit | nodeBit)
+					if steps[i].Val == 1 {
+						down[code] = true
+						test()
+					} else if steps[i].Val == 0 {
+						delete(down, code)
+					}
+				}
+			}
+			return complete
+		}
+		if completes(false) || completes(true) {
+			d.Exit = []uint16{}
+		}
+	}
+	// in a quarter of the cases the panic action is (also) bound to a direction of a hat, and the inserted panic is a push
+	// of that hat: "triggering the panic action" is not tied to a key
+	if rapid.IntRange(0, 3).Draw(t, "viaAxis") == 0 {
+		c.ViaAxis = rapid.SampledFrom([]int{1, -1}).Draw(t, "axisDir")
+		for mi := range d.Mappings {
+			m := &d.Mappings[mi]
+			if len(m.AnalogSubs) == 0 {
+				m.AnalogSubs = []AnalogSub{{Sub: "", Default: floatp(0)}}
+			}
+			a := AxisDef{Sub: "", Code: c13PanicAxis, Type: "action", Min: -1, Max: 1}
+			if c.ViaAxis > 0 {
+				a.Action = strp("panic")
+			} else {
+				a.Action = strp("cc_learning")
+				a.ActionNeg = strp("panic")
+			}
+			m.Axes = append(m.Axes, a)
+		}
+	}
+	return c
 }
 
 func isActionKey(d *Desc, code uint16) bool {
